@@ -14,6 +14,20 @@ P["C10"] = dict(
     design_ref="3 DET, 4 C10",
 )
 
+P["C18"] = dict(
+    text="Static agreement check between four tables that must say the same thing: the usage text (src/usage_help.md, parsed at check time), the getopts registrations in make_opts, the option keys read in parse_command and the literal arms of parse_output_format, all extracted from the type-checked MIR (string-comparison chains, aggregate constants, closure argument tuples, validator closures). Every documented format/parameter/default/alias/option must be accepted as documented, every accepted parameter is validated against an audited value set, unknown names and leftover parameters end in error+Err, each option key drives the documented setting (sticky |= / &= ! across groups), the default format and derived extensions are as stated, a derived name equal to the input is rejected on every path, and per group the bytes are either printed or written (never both), with the written bytes being the formatter's result. All arms and all options are covered, not the combinations a test picks.",
+    note="Decides table agreement and the control structure of the driver; getopts' own parsing of attached/detached spellings is trusted. The value sets of tables/cli.json were audited by reading the formatters. Does not decide that the formatter output itself is right (C11/C12).",
+    technique="static analysis: constant decision-table extraction from MIR + table differ against the parsed usage text; dominance / control-region checks for rejection paths",
+    design_ref="3 TAB-cli, 4 C18",
+)
+
+P["C11"] = dict(
+    text="Static dispatch-table check: for every OutputFormat variant the arm of format_output must call the formatter, with the constant parameters, that the format's name implies (radix 10/16, separator, bits per digit, chunk width, dump geometry), with variant fields passed to the parameter of the same meaning and the produced text being what is returned; wrapper formatters forward the audited constants; every formatter parameter guarded by a panic (match radix / assert base) only ever receives a handled constant or a command-line value validated to that set; parameters used as divisors are validated non-zero. Covers all 20 variants and all call sites.",
+    note="Decides the dispatch/parameter clause and crash-freedom of parameter domains, not that each formatter's text decodes back to the bits for every length (value-level, needs decoders; not claimed).",
+    technique="static analysis: enum-switch arm extraction from MIR, constant-argument table differ, panic-guarded parameter domain inference with call-site check",
+    design_ref="3 TAB-fmt, 4 C11",
+)
+
 NA_PENDING = "check not built yet (build in progress, see DESIGN.md section 9)"
 
 
